@@ -641,6 +641,8 @@ func c17SchemaInner(r *Rng, depth int, defs []string) map[string]any {
 			ap := c17Schema(r, 0, defs)
 			delete(ap, "x-nullable") // additionalProperties holds an OpenAPI 3 schema already
 			s["additionalProperties"] = ap
+		} else if r.Chance(15) {
+			s["additionalProperties"] = false // a closed object
 		}
 		return s
 	}
